@@ -202,4 +202,62 @@ example : (vaRun {} [.start, .startDone 0 (some 6055), .start, .unsub, .startDon
 example : (vaRun {} [.start, .startDone 0 none, .reqStop, .audio true, .announce]).out =
     [.hStart 0, .respError, .hStop true, .hStop false, .hAnnounce] := by decide
 
+/-! ## the other subscriptions -/
+
+/-- **C17 (once per message).**  A message of a subscribed kind invokes exactly one handler, a message of a kind that is not
+(or no longer) subscribed none; the home-assistant one-shot handler is used only when it was given AND the message says
+`once`, otherwise the subscription handler is. -/
+theorem c17_other_once (s : OSub) (k : OKind) (id : Nat) (once : Bool) :
+    (s.active.contains k = true → (oDeliver s k id once).length = 1) ∧
+    (s.active.contains k = false → oDeliver s k id once = []) ∧
+    (s.active.contains k = true → (oDeliver s k id once = [.request id] ↔ (k = .ha ∧ s.hasRequest = true ∧ once = true))) ∧
+    (s.active.contains k = true → ¬(k = .ha ∧ s.hasRequest = true ∧ once = true) → oDeliver s k id once = [.handler k id]) := by
+  unfold oDeliver
+  refine ⟨fun h => ?_, fun h => ?_, fun h => ?_, fun h hn => ?_⟩
+  · simp only [h, Bool.not_true, Bool.false_eq_true, ↓reduceIte]; split <;> rfl
+  · simp only [h, Bool.not_false, ↓reduceIte]
+  · simp only [h, Bool.not_true, Bool.false_eq_true, ↓reduceIte]
+    constructor
+    · intro h1; split at h1
+      · assumption
+      · cases h1
+    · intro h1; rw [if_pos h1]
+  · simp only [h, Bool.not_true, Bool.false_eq_true, ↓reduceIte, hn]
+
+/-- **C17 (unsubscribe stops deliveries at once, and only its own).**  After the unsubscribe function of kind `k` is called,
+no later message of kind `k` invokes anything, while every other kind is served exactly as before — for every stream. -/
+theorem c17_other_unsub (s : OSub) (k : OKind) (evs : List OEv) :
+    ∀ o ∈ oRun { s with active := s.active.filter (· ≠ k) } evs, ∀ id, o ≠ .handler k id := by
+  induction evs generalizing s with
+  | nil => intro o ho; simp [oRun] at ho
+  | cons e es ih =>
+    intro o ho id
+    simp only [oRun, List.mem_append] at ho
+    rcases ho with h1 | h1
+    · cases e with
+      | msg k' id' once =>
+        simp only [oStep, oDeliver] at h1
+        split at h1
+        · simp at h1
+        · rename_i hc
+          split at h1
+          · simp at h1; rw [h1]; intro h; cases h
+          · simp at h1; rw [h1]; intro h
+            cases h
+            simp [List.contains_iff_mem, List.mem_filter] at hc
+      | unsub k' => simp [oStep] at h1
+    · cases e with
+      | msg k' id' once => exact ih s o (by simpa [oStep] using h1) id
+      | unsub k' =>
+        simp only [oStep] at h1
+        have hcomm : (s.active.filter (· ≠ k)).filter (· ≠ k') = (s.active.filter (· ≠ k')).filter (· ≠ k) := by
+          simp only [List.filter_filter]; congr 1; funext x; simp [Bool.and_comm]
+        refine ih { s with active := s.active.filter (· ≠ k') } o ?_ id
+        show o ∈ oRun { active := (s.active.filter (· ≠ k')).filter (· ≠ k), hasRequest := s.hasRequest } es
+        rw [← hcomm]; exact h1
+
+example : oRun ⟨[.log, .ha, .adv], true⟩ [.msg .ha 1 true, .msg .ha 2 false, .msg .adv 3 false, .unsub .adv, .msg .adv 4 false,
+    .msg .svc 5 false, .msg .log 6 false] = [.request 1, .handler .ha 2, .handler .adv 3, .handler .log 6] := by decide
+example : oRun ⟨[.ha], false⟩ [.msg .ha 1 true, .msg .ha 2 false] = [.handler .ha 1, .handler .ha 2] := by decide
+
 end Esp.C17
